@@ -110,8 +110,10 @@ func (tc *Manager) SuccessfulApplies() object.ObjMetadataSet {
 // AppliedResourceUID looks up the UID of a successfully applied resource
 func (tc *Manager) AppliedResourceUID(id object.ObjMetadata) (types.UID, bool) {
 	objStatus, found := tc.ObjectStatus(id)
-	return objStatus.UID, found &&
-		objStatus.Strategy == actuation.ActuationStrategyApply &&
+	if !found {
+		return "", false
+	}
+	return objStatus.UID, objStatus.Strategy == actuation.ActuationStrategyApply &&
 		objStatus.Actuation == actuation.ActuationSucceeded
 }
 
